@@ -7,6 +7,7 @@ From Astisub Require Import Model.ConvTtmlSsa Proofs.ConvTtmlSsaProofs.
 From Astisub Require Import Model.ConvSsaVtt Model.ConvVttSsa.
 From Astisub Require Import Model.ConvTtmlVtt.
 From Astisub Require Import Model.ConvTtml Model.ConvStl Model.ConvStlVtt Model.ConvStlTtml Model.ConvTtx.
+From Astisub Require Import Kit.ScanLim.
 Extraction "model.ml"
   Z.add Z.mul Z.opp Z.div Z.modulo Z.of_N Z.to_N N.add N.mul
   order merge add_dur force_duration fragment unfragment optimize remove_styling item_text
@@ -34,4 +35,5 @@ Extraction "model.ml"
   parse_color_c parse_time_c text_lines_c event_item_c event_of_item_c info_bytes_c
   ttml_time time_simple read_ttml doc_time_simple write_ttml write_ttml_bytes indent_doc format_ttml xml_parse ttml_enc ttml_dec ttml_dec2 ttml_optimize render_ttml denote_ttml ex_rendering ex_model xml_parse2 write_ttml_bytes_go xml_legal convert_srt_ttml convert_vtt_ttml convert_ssa_ttml read_ttml_c write_ttml_c wdoc_proj ttml_unmarshal_c propagate_c print_node_go
   read_stl read_faithful write_stl write_faithful encode_text_stl text_faithful decode_bytes open_row stl_ttx_row
-  parse_gsi gsi_faithful gsi_bytes parse_tti tti_bytes new_gsi new_tti sattr0_stl time_faithful stl_enc stl_dec read_stl_sched read_stl_fail_at write_stl_to read_stl_c write_stl_c encode_text_stl_c open_row_c stl_ttx_row_c parse_gsi_c gsi_bytes_c parse_tti_c tti_bytes_c decode1_c convert_ttml_ssa convert_ttml_ssa_by ttml_ssa_okb read_ttml_bytes2 convert_ssa_vtt convert_vtt_ssa convert_ttml_vtt convert_srt_stl convert_vtt_stl convert_ssa_stl convert_ttml_stl convert_stl_vtt convert_stl_ttml_go.
+  parse_gsi gsi_faithful gsi_bytes parse_tti tti_bytes new_gsi new_tti sattr0_stl time_faithful stl_enc stl_dec read_stl_sched read_stl_fail_at write_stl_to read_stl_c write_stl_c encode_text_stl_c open_row_c stl_ttx_row_c parse_gsi_c gsi_bytes_c parse_tti_c tti_bytes_c decode1_c convert_ttml_ssa convert_ttml_ssa_by ttml_ssa_okb read_ttml_bytes2 convert_ssa_vtt convert_vtt_ssa convert_ttml_vtt convert_srt_stl convert_vtt_stl convert_ssa_stl convert_ttml_stl convert_stl_vtt convert_stl_ttml_go
+  scan_lim.
